@@ -103,7 +103,7 @@ pub fn run(max_windows: u64, honest: bool) -> WorldOutcome {
         let calm = honest || kernel::choose(E, 3) == 1;
         // in the honest environment some validators' votes are slow (still within the delay bound of
         // the slot's other traffic), so that blocks overtake the certificates of their parents
-        let slow_voters: Vec<bool> = (0..n).map(|_| honest && kernel::choose(E, 3) == 1).collect();
+        let slow_voters: Vec<bool> = (0..n).map(|_| honest && kernel::choose(E, 2) == 1).collect();
         if calm {
             kernel::fault("calm_environment_with_contested_slots");
         }
@@ -161,7 +161,9 @@ pub fn run(max_windows: u64, honest: bool) -> WorldOutcome {
                 hashes.insert((s, 1), blk.hash.clone());
                 built.insert((s, 1), blk);
                 blocks_by_slot.entry(s).or_default().push(((s, 1), chain_tip));
-                script.push((t_s + kernel::choose(E, 100), In::Block { b: (s, 1), parent: chain_tip }));
+                // an eager leader's block can arrive well before its nominal time (honest mode only)
+                let early = if honest && kernel::choose(E, 3) == 1 { 150 + kernel::choose(E, 150) } else { 0 };
+                script.push((t_s - early + kernel::choose(E, 100), In::Block { b: (s, 1), parent: chain_tip }));
                 chain_tip = (s, 1);
                 for v in 0..n {
                     if v == real {
@@ -684,24 +686,24 @@ pub fn run(max_windows: u64, honest: bool) -> WorldOutcome {
                 own_votes.iter().find(|v| v.3 == slot - 1 && v.2 == VK::Notar).map(|v| v.0.max(t_block))
             };
             let Some(t_can) = t_prev else { continue };
+            // in a window's first slot the node also needs the parent to be ready
+            let t_can = if slot % 4 == 0 {
+                let parent = blocks_parent(slot);
+                let mut times: Vec<u64> = deliveries.iter().map(|d| d.at_ms).chain(own_votes.iter().map(|v| v.0 + 1)).filter(|t| *t >= t_can).collect();
+                times.sort_unstable();
+                times.dedup();
+                match times.into_iter().find(|t| {
+                    let (v, _, _) = knowledge(*t);
+                    let fin = v.finality();
+                    parent.is_some_and(|p| v.ready_parents(&fin, slot).contains(&p))
+                }) {
+                    Some(t) => t,
+                    None => continue, // the parent never became ready at the node: nothing is owed
+                }
+            } else {
+                t_can
+            };
             if st.notar != Some(1) {
-                // in a window's first slot the node also needs the parent to be ready
-                let t_can = if slot % 4 == 0 {
-                    let parent = blocks_parent(slot);
-                    let mut times: Vec<u64> = deliveries.iter().map(|d| d.at_ms).chain(own_votes.iter().map(|v| v.0 + 1)).filter(|t| *t >= t_can).collect();
-                    times.sort_unstable();
-                    times.dedup();
-                    match times.into_iter().find(|t| {
-                        let (v, _, _) = knowledge(*t);
-                        let fin = v.finality();
-                        parent.is_some_and(|p| v.ready_parents(&fin, slot).contains(&p))
-                    }) {
-                        Some(t) => t,
-                        None => continue, // the parent never became ready at the node: nothing is owed
-                    }
-                } else {
-                    t_can
-                };
                 if !finalized_by(t_can + 50) {
                     kernel::violation(
                         "C02",
@@ -711,6 +713,17 @@ pub fn run(max_windows: u64, honest: bool) -> WorldOutcome {
                     break;
                 }
                 continue;
+            }
+            // promptness: everything the vote needs was there at t_can; casting it a whole block time
+            // later means the block sat unvoted until some unrelated later event
+            let t_notar = own_votes.iter().find(|v| v.3 == slot && v.2 == VK::Notar).map_or(t_can, |v| v.0);
+            if t_notar > t_can + 400 && !finalized_by(t_can + 50) {
+                kernel::violation(
+                    "C02",
+                    "node-local:notar-vote-late",
+                    format!("honest environment: the node could notarize the block of slot {slot} from {t_can} ms (block at {t_block} ms) but did so only at {t_notar} ms; its votes around that slot: {}", describe()),
+                );
+                break;
             }
             if !st.fin {
                 let t_notar = own_votes.iter().find(|v| v.3 == slot && v.2 == VK::Notar).map_or(t_can, |v| v.0);
